@@ -92,124 +92,132 @@ func vc06Sentinel(id uint16) []byte {
 	return b
 }
 
-// vc06UDPRound sends wires followed by a sentinel on one socket and returns
-// the responses by ID.
-func vc06UDPRound(addr net.Addr, wires [][]byte, sentinelID uint16, expectAll map[uint16]bool) (resps map[uint16]*dns.Msg, err error) {
-	c, err := net.Dial("udp", addr.String())
-	if err != nil {
-		return nil, err
-	}
-	defer c.Close()
-
-	for _, w := range wires {
-		if _, err = c.Write(w); err != nil {
-			return nil, err
-		}
+// vc06Round sends wires followed by a sentinel on one socket or connection and
+// collects the responses by ID.  If a response listed in expect has not arrived
+// when the sentinel's has, a second sentinel is sent and awaited: two complete
+// round trips after the query was received are taken as confirmation that the
+// server dropped it (settled = true).  A missing sentinel response is a
+// time-out (err != nil), never a verdict.
+func vc06Round(tcp bool, addr net.Addr, wires [][]byte, sentinelID, sentinel2ID uint16, expect map[uint16]bool) (resps map[uint16]*dns.Msg, settled bool, err error) {
+	network := "udp"
+	if tcp {
+		network = "tcp"
 	}
 
-	if _, err = c.Write(vc06Sentinel(sentinelID)); err != nil {
-		return nil, err
-	}
-
-	resps = map[uint16]*dns.Msg{}
-	buf := make([]byte, 65536)
-	deadline := time.Now().Add(5 * time.Second)
-	sentinelSeen := false
-	for {
-		missing := !sentinelSeen
-		for id := range expectAll {
-			if _, ok := resps[id]; !ok {
-				missing = true
-			}
-		}
-
-		if missing {
-			_ = c.SetReadDeadline(deadline)
-		} else {
-			// Everything expected has arrived; allow a short grace for a
-			// response that must not exist.
-			_ = c.SetReadDeadline(time.Now().Add(15 * time.Millisecond))
-		}
-
-		n, rerr := c.Read(buf)
-		if rerr != nil {
-			if missing {
-				return resps, fmt.Errorf("timed out waiting for responses (have %d)", len(resps))
-			}
-
-			return resps, nil
-		}
-
-		m := &dns.Msg{}
-		if uerr := m.Unpack(buf[:n]); uerr != nil {
-			return resps, fmt.Errorf("server sent an undecodable response: %w", uerr)
-		}
-
-		if m.Id == sentinelID {
-			sentinelSeen = true
-		} else {
-			resps[m.Id] = m
-		}
-	}
-}
-
-// vc06TCPRound writes wires and a sentinel pipelined on one connection and
-// reads until the sentinel's response or EOF.
-func vc06TCPRound(addr net.Addr, wires [][]byte, sentinelID uint16) (resps map[uint16]*dns.Msg, closed bool, err error) {
-	c, err := net.Dial("tcp", addr.String())
+	c, err := net.Dial(network, addr.String())
 	if err != nil {
 		return nil, false, err
 	}
 	defer c.Close()
+
+	send := func(w []byte) error {
+		if tcp {
+			w = append(binary.BigEndian.AppendUint16(nil, uint16(len(w))), w...)
+		}
+
+		_, werr := c.Write(w)
+
+		return werr
+	}
 
 	var out []byte
 	for _, w := range append(append([][]byte{}, wires...), vc06Sentinel(sentinelID)) {
-		out = binary.BigEndian.AppendUint16(out, uint16(len(w)))
-		out = append(out, w...)
+		if tcp {
+			out = binary.BigEndian.AppendUint16(out, uint16(len(w)))
+			out = append(out, w...)
+		} else if err = send(w); err != nil {
+			return nil, false, err
+		}
 	}
 
-	if _, err = c.Write(out); err != nil {
-		return nil, false, err
+	if tcp {
+		if _, err = c.Write(out); err != nil {
+			return nil, false, err
+		}
+	}
+
+	recv := func() (m *dns.Msg, rerr error) {
+		var b []byte
+		if tcp {
+			var l uint16
+			if rerr = binary.Read(c, binary.BigEndian, &l); rerr != nil {
+				return nil, rerr
+			}
+
+			b = make([]byte, l)
+			if _, rerr = io.ReadFull(c, b); rerr != nil {
+				return nil, rerr
+			}
+		} else {
+			b = make([]byte, 65536)
+			var n int
+			if n, rerr = c.Read(b); rerr != nil {
+				return nil, rerr
+			}
+
+			b = b[:n]
+		}
+
+		m = &dns.Msg{}
+		if uerr := m.Unpack(b); uerr != nil {
+			return nil, fmt.Errorf("server sent an undecodable response: %w", uerr)
+		}
+
+		return m, nil
+	}
+
+	missing := func() bool {
+		for id := range expect {
+			if _, ok := resps[id]; !ok {
+				return true
+			}
+		}
+
+		return false
 	}
 
 	resps = map[uint16]*dns.Msg{}
-	_ = c.SetReadDeadline(time.Now().Add(5 * time.Second))
-	sentinelSeen := false
+	seen1, seen2, sent2 := false, false, false
 	for {
-		var l uint16
-		if rerr := binary.Read(c, binary.BigEndian, &l); rerr != nil {
-			if rerr == io.EOF || strings.Contains(rerr.Error(), "reset") {
+		switch {
+		case !seen1 || (sent2 && !seen2):
+			_ = c.SetReadDeadline(time.Now().Add(8 * time.Second))
+		default:
+			// Both what is expected and the sentinel have arrived (or the
+			// second sentinel has): a short grace for a response that must
+			// not exist.
+			_ = c.SetReadDeadline(time.Now().Add(20 * time.Millisecond))
+		}
+
+		m, rerr := recv()
+		if rerr != nil {
+			if tcp && !seen1 && (rerr == io.EOF || strings.Contains(rerr.Error(), "reset") || rerr == io.ErrUnexpectedEOF) {
+				// The server closed the connection on a bad query; that is a
+				// settled outcome for everything on this connection.
 				return resps, true, nil
 			}
 
-			if sentinelSeen {
-				// The grace period after the sentinel's response is over.
-				return resps, false, nil
+			if !seen1 || (sent2 && !seen2) {
+				return resps, false, fmt.Errorf("timed out waiting for a sentinel response: %w", rerr)
 			}
 
-			return resps, false, fmt.Errorf("reading: %w", rerr)
-		}
-
-		b := make([]byte, l)
-		if _, rerr := io.ReadFull(c, b); rerr != nil {
 			return resps, true, nil
 		}
 
-		m := &dns.Msg{}
-		if uerr := m.Unpack(b); uerr != nil {
-			return resps, false, fmt.Errorf("server sent an undecodable response: %w", uerr)
+		switch m.Id {
+		case sentinelID:
+			seen1 = true
+			if missing() && !sent2 {
+				sent2 = true
+				if err = send(vc06Sentinel(sentinel2ID)); err != nil {
+					return resps, false, err
+				}
+			}
+		case sentinel2ID:
+			seen2 = true
+		default:
+			resps[m.Id] = m
 		}
-
-		if m.Id == sentinelID {
-			// Pipelined queries are processed concurrently; give the rest a
-			// moment.
-			sentinelSeen = true
-			_ = c.SetReadDeadline(time.Now().Add(30 * time.Millisecond))
-
-			continue
-		}
-
-		resps[m.Id] = m
 	}
 }
 
@@ -273,16 +281,22 @@ func TestVerifC06Sockets(t *testing.T) {
 			expectAll[nextID] = true
 		}
 
+		sentinel2 := sentinel + 1
+		for used[sentinel2] {
+			sentinel2++
+		}
+
 		var resps map[uint16]*dns.Msg
 		var err error
+		settled := false
 		if tcp {
 			// History on its own connection first (a bad query may close the
 			// connection), then the query under test.
-			if _, _, err = vc06TCPRound(tcpAddr, wires, sentinel); err == nil {
-				resps, _, err = vc06TCPRound(tcpAddr, [][]byte{next.Wire}, sentinel)
+			if _, _, err = vc06Round(true, tcpAddr, wires, sentinel, sentinel2, nil); err == nil {
+				resps, settled, err = vc06Round(true, tcpAddr, [][]byte{next.Wire}, sentinel, sentinel2, expectAll)
 			}
 		} else {
-			resps, err = vc06UDPRound(udpAddr, append(wires, next.Wire), sentinel, expectAll)
+			resps, settled, err = vc06Round(false, udpAddr, append(wires, next.Wire), sentinel, sentinel2, expectAll)
 		}
 
 		classes := []string{"kind-" + next.Kind}
@@ -309,9 +323,8 @@ func TestVerifC06Sockets(t *testing.T) {
 		st.Case(nt, classes...)
 
 		got := vc06Got(resps[nextID])
-		if err != nil && got == want {
-			// e.g. a late history response on a loaded machine
-			fmt.Println("VERIF-INCONCLUSIVE: socket round failed:", err)
+		if err != nil || !settled {
+			fmt.Println("VERIF-INCONCLUSIVE: socket round did not settle:", err)
 			t.FailNow()
 		}
 
@@ -320,11 +333,6 @@ func TestVerifC06Sockets(t *testing.T) {
 		}
 
 		if got != want {
-			if err != nil && got == "" {
-				fmt.Println("VERIF-INCONCLUSIVE: expected response did not arrive in time:", err)
-				t.FailNow()
-			}
-
 			t.Fatalf("tcp=%t: %s query %x:\nserver answered: %q\nown bytes imply: %q", tcp, next.Kind, next.Wire, got, want)
 		}
 	})
